@@ -41,6 +41,10 @@ MC_API = mcc('MC_Api', 'MC_Api', invariants='Inv_P_C10 Inv_LiveTreesClean')
 
 MC_LOOPS = mcc('MC_Loops', 'MC_Loops', invariants='Inv_Bound Inv_Shrink Inv_Tab; PROPERTY Terminates (weak fairness)')
 
+MC_SELECTOR = mcc('MC_Css', 'MC_Selector', invariants='Inv_Selector (RefMatch = DoMatches on every node)')
+MC_CASCADE = mcc('MC_Css', 'MC_Cascade', invariants='Inv_Cascade (MaybeUpdate fold = RefCascade)')
+MC_HIDE = mcc('MC_Css', 'MC_Hide', invariants='Inv_Hide (render of styled d = render of DeleteHidden(d))')
+
 # property -> plan
 PLANS = {
     'C02': dict(
@@ -165,21 +169,21 @@ PLANS = {
     ),
     'C18': dict(
         fams=[('c18', dict(quick=2500, thorough=50000), {})],
-        mc=[],
+        mc=[MC_HIDE],
         nontrivial=lambda rec: len(rec.get('runs', [])) >= 2 and rec['runs'][0]['res']['k'] == 'ok' and rec['runs'][0]['res'] != rec['runs'][2]['res'],
         rule='block-grammar documents (lists, quotes, headings, links, tables, pre) in which random subtrees (incl. li, td, tr, table, a, headings) are hidden through a class rule, an id rule, an element rule, an inline style, or the height:0 + overflow:hidden idiom (rule or inline); run 1 = the document with use_doc_css, run 2 = the document with those subtrees deleted, runs 3/4 = use_doc_css off against the document stripped of its style element and style attributes; the predicate also checks that the deleted document is Css!DeleteHidden of the original (reference selector + cascade semantics); widths 1..100; non-trivial = hiding changes the output; distinct by sha256(runs)',
         assumptions=['hidden sets are constructed by marking (the generator never evaluates selectors); the specification re-derives them with RefMatch / RefCascade and a disagreement is a tool error'],
     ),
     'C19': dict(
         fams=[('c19', dict(quick=2500, thorough=50000), {})],
-        mc=[],
+        mc=[MC_CASCADE],
         nontrivial=lambda rec: bool(rec.get('runs')) and rec['runs'][0]['res']['k'] == 'ok' and len({tuple(t) for ln in rec['runs'][0]['res']['lines'] for x in ln if len(x) > 2 for t in x[2] if t[0] in ('Fg', 'Bg')}) >= 2,
         rule='documents with classes / ids and three sheets (agent via add_agent_css, user via add_css, author via <style>) of 0-3 rules each over selectors of the five specificity classes (element, class, id, element+class, nth-child) with normal / !important colour and background declarations, plus inline style / legacy color attributes; the effective colour of every letter (last Colour / BgColour annotation) must be the one Css!RefCascade gives for the nearest declared ancestor; non-trivial = at least two different colour annotations occur; distinct by sha256(runs)',
         assumptions=['inline styles are written in the canonical spelling that the harness abstracts into declarations'],
     ),
     'C20': dict(
         fams=[('c20', dict(quick=2500, thorough=50000), {})],
-        mc=[],
+        mc=[MC_SELECTOR],
         nontrivial=lambda rec: bool(rec.get('runs')) and rec['runs'][0]['res']['k'] == 'ok' and any(len(x) > 2 and any(t == ['Fg', 0, 0, 254] for t in x[2]) for ln in rec['runs'][0]['res']['lines'] for x in ln),
         rule='documents of nested div/p/span/em/ul/li/section/b with classes {x,y,z}, ids and mixed text / element children; one author rule with 1-2 selectors of up to 4 compound steps (element, class(es), id, *, descendant and child combinators, :nth-child(an+b | odd | even) with a, b in -5..5) colouring over the agent rule * {color}; the letters coloured by the rule must be exactly those whose parent element Css!RefMatch designates (reference runs on the whole DOM incl. html / head / body); non-trivial = the rule colours at least one letter; distinct by sha256(runs)',
         assumptions=['selector spelling varies in insignificant syntax only'],
